@@ -9,8 +9,9 @@ From PV Require Import Base.Prelude Model.DHCP Spec.DHCP Spec.DHCPCheck Proofs.D
 Open Scope list_scope.
 Open Scope N_scope.
 
+(* what the lease file stores of an acknowledged lease: client id, MAC, address, (subnet,) expiry *)
 Definition same_binding (l0 l : lease) : Prop :=
-  l_cid l0 = l_cid l /\ l_mac l0 = l_mac l /\ l_ip l0 = l_ip l /\ l_net2 l0 = l_net2 l.
+  l_cid l0 = l_cid l /\ l_mac l0 = l_mac l /\ l_ip l0 = l_ip l /\ l_net2 l0 = l_net2 l /\ l_exp l0 = l_exp l.
 
 Definition is_ack_reply (rp : option reply) : bool :=
   match rp with Some r => is_ack r | None => false end.
@@ -53,8 +54,8 @@ Qed.
 Lemma kept_made_same t k a l l' :
   (kept t l \/ made k a l) -> l_state l' = l_state l -> same_binding l l' -> kept t l' \/ made k a l'.
 Proof.
-  intros [[l0 [H0 [Hc Ha]]]|[Hc Ha]] Es [E1 [E2 [E3 E4]]].
-  - left. exists l0. split; auto. split; [congruence|]. intros Hs. rewrite Es in Hs. destruct (Ha Hs) as [S0 [B1 [B2 [B3 B4]]]].
+  intros [[l0 [H0 [Hc Ha]]]|[Hc Ha]] Es [E1 [E2 [E3 [E4 E5]]]].
+  - left. exists l0. split; auto. split; [congruence|]. intros Hs. rewrite Es in Hs. destruct (Ha Hs) as [S0 [B1 [B2 [B3 [B4 B5]]]]].
     split; auto. repeat split; congruence.
   - right. split; [congruence|]. intros Hs. rewrite Es in Hs. destruct (Ha Hs) as [A1 A2]. split; auto. congruence.
 Qed.
@@ -81,8 +82,8 @@ Qed.
 Lemma discover_reset_same now l m :
   l_state (discover_reset now l m) = l_state l /\ same_binding l (discover_reset now l m).
 Proof.
-  unfold discover_reset, same_binding. destruct (l_state l) eqn:E; simpl; rewrite ?E; auto;
-    destruct (oeqb (l_xid l) (Some (m_xid m))); simpl; rewrite ?E; auto.
+  unfold discover_reset, same_binding. destruct (l_state l) eqn:E; simpl; rewrite ?E; auto 10;
+    destruct (oeqb (l_xid l) (Some (m_xid m))); simpl; rewrite ?E; auto 10.
 Qed.
 
 Lemma discover_shaped c ch now s m s' rp :
@@ -95,7 +96,7 @@ Proof.
   set (l1 := match l_offer l0 with Some x => if taken s1 l0 x then set_offer l0 None else l0 | None => l0 end).
   assert (L1 : l_state l1 = l_state l /\ same_binding l l1).
   { unfold l1. destruct (l_offer l0) as [x|]; [|auto]. destruct (taken s1 l0 x); [|auto].
-    destruct R2 as [A [B [C D]]]. simpl. repeat split; auto. }
+    destruct R2 as [A [B [C [D E]]]]. simpl. repeat split; auto. }
   intros H.
   assert (Hgen : forall a, shaped (tbl s) k a (tbl s1) /\ (kept (tbl s) l1 \/ made k a l1) /\ l_cid l1 = k).
   { intros a. destruct (foc_shaped c s k (m_chaddr m) s1 l a Ef) as [S1 [Kl Ck]].
@@ -225,17 +226,22 @@ Qed.
 (* the client id a step can introduce: getcid of its message (0 for the ops without a message: they introduce none) *)
 Definition op_cid (o : op) : cid := match op_msg o with Some m => getcid m | None => 0 end.
 
-(* one step.  OSetExp (the verif hook VerifSetLeaseExpiry, not part of the library) changes only an expiry. *)
+(* one step of the library.  OSetExp is the verif hook VerifSetLeaseExpiry (build tag verif, not part of the
+   library): it rewrites an expiry in memory only; its leases are kept up to the expiry. *)
+Definition hook_op (o : op) : Prop := exists k t, o = OSetExp k t.
+Definition kept_upto_exp (t : list lease) (l : lease) : Prop :=
+  exists l0, In l0 t /\ l_cid l0 = l_cid l /\ l_state l0 = l_state l /\ l_ip l0 = l_ip l.
+
 Lemma step_shaped c ch s o s' rp :
   step c ch s o = (s', rp) ->
   forall l, In l (tbl s') ->
-    kept (tbl s) l \/ (op_msg o <> None /\ made (op_cid o) (is_ack_reply rp) l).
+    kept (tbl s) l \/ (op_msg o <> None /\ made (op_cid o) (is_ack_reply rp) l) \/ (hook_op o /\ kept_upto_exp (tbl s) l).
 Proof.
   destruct o as [now m|now m|m|m|x|x|now|k t]; simpl; unfold op_cid; simpl; intros H l Hin.
-  - apply discover_shaped in H. rewrite parse_tbl in H. destruct (H l Hin); auto. right. split; [discriminate|auto].
-  - apply request_shaped in H. rewrite parse_tbl in H. destruct (H l Hin); auto. right. split; [discriminate|auto].
-  - apply decline_shaped in H. rewrite parse_tbl in H. destruct (H l Hin); auto. right. split; [discriminate|auto].
-  - apply release_shaped in H. rewrite parse_tbl in H. destruct (H l Hin); auto. right. split; [discriminate|auto].
+  - apply discover_shaped in H. rewrite parse_tbl in H. destruct (H l Hin); auto. right. left. split; [discriminate|auto].
+  - apply request_shaped in H. rewrite parse_tbl in H. destruct (H l Hin); auto. right. left. split; [discriminate|auto].
+  - apply decline_shaped in H. rewrite parse_tbl in H. destruct (H l Hin); auto. right. left. split; [discriminate|auto].
+  - apply release_shaped in H. rewrite parse_tbl in H. destruct (H l Hin); auto. right. left. split; [discriminate|auto].
   - inversion H; subst. left. apply kept_refl. exact Hin.
   - inversion H; subst. left. apply kept_refl. exact Hin.
   - inversion H; subst. simpl in Hin. apply in_freeLeases in Hin. destruct Hin as [l0 [H0 [->| ->]]].
@@ -243,5 +249,5 @@ Proof.
     + left. exists l0. repeat split; auto; simpl; discriminate.
   - inversion H; subst. destruct (tget k (tbl s)) as [l0|] eqn:E; [|left; apply kept_refl; exact Hin].
     simpl in Hin. destruct Hin as [<-|Hin]; [|apply in_tdel in Hin; destruct Hin as [Hin _]; left; apply kept_refl; exact Hin].
-    left. apply tget_in in E as [E _]. exists l0. repeat split; auto.
+    right. right. split; [exists k, t; reflexivity|]. apply tget_in in E as [E _]. exists l0. repeat split; auto.
 Qed.
